@@ -10,6 +10,13 @@
 //! Histories are never merged (hidden state: tombstones, stale index entries), exploration
 //! stops at the first divergence of a history, failing histories are shrunk to a 1-minimal
 //! op pattern that names the signature.
+//!
+//! Options (development / self test only, never used by the registered runs):
+//!   `--opt scenario=<name>` one scenario, `--opt pass=<full|deep|core>`, `--opt maxdepth=N`,
+//!   `--opt verbose=1` (every cut history becomes a note),
+//!   `--opt plant=<pk-off|check-weaker|check-stronger|fk-off>`: perturbs the schema given to the
+//!   REAL database only (PRIMARY KEY dropped, CHECK (a >= 0) / (a > 1) instead of (a > 0), foreign keys
+//!   switched off) — the harness must then report false-accept / false-reject.
 use checks::sqlh::{Res, TestDb};
 use refmodel::sql::expr as E;
 use refmodel::sql::rel::{ColumnDef, CreateTable, Delete, Insert, OnDelete, State, Stmt, TableDef, Update};
@@ -286,7 +293,7 @@ fn check_scenario(form: &'static str, ty: Ty, expr: E::Expr, f: CheckFn, values:
 fn fk_scenario(name: &str, clause: &str, od: Option<OnDelete>, passes: Vec<Pass>, fk_off: bool) -> Scenario {
     let mut ddl = vec![];
     if fk_off {
-        ddl.push("PRAGMA foreign_keys = OFF".to_string());
+        ddl.push("SET foreign_keys = OFF".to_string());
     }
     ddl.push("CREATE TABLE p (id INT PRIMARY KEY)".to_string());
     if name == "fk-table-level" {
@@ -342,7 +349,7 @@ fn scenarios(plant_opt: Option<&str>) -> Vec<Scenario> {
         false,
         {
             let mut p = deep_passes(3, 4, &["updkeyall1", "insnull", "commit"]);
-            p.push(core_pass(&["ins1", "ins2", "updkey12", "del1", "begin", "rollback"], 5, 6));
+            p.push(core_pass(&["ins1", "ins2", "updkey12", "begin", "rollback"], 5, 6));
             p
         },
     ));
@@ -996,6 +1003,8 @@ impl Check for C09 {
             for p in &sc.passes {
                 let allowed: Vec<usize> = (0..sc.ops.len()).filter(|&i| !p.without.contains(&sc.ops[i].name.as_str()) && (p.only.is_empty() || p.only.contains(&sc.ops[i].name.as_str()))).collect();
                 let maxd = ctx.tier.pick(p.depth_quick, p.depth_thorough);
+    // development aid: `--opt maxdepth=N` clamps every pass (never used by the registered runs)
+    let maxd = ctx.opt("maxdepth").and_then(|s| s.parse::<usize>().ok()).map_or(maxd, |m| maxd.min(m));
                 if maxd == 0 || ctx.opt("pass").map_or(false, |x| x != p.name) {
                     continue;
                 }
